@@ -12,8 +12,11 @@ type Layout struct {
 	Wild     bool // false => canonical-ish minimal layout
 	CRLF     bool
 	Comments bool
-	sb       strings.Builder
-	ln, cl   int
+	// ExprComments: trailing ' # ...' comments also after the lines of a condition expression (the pre-pass strips
+	// them there as everywhere else)
+	ExprComments bool
+	sb           strings.Builder
+	ln, cl       int
 	// Long > 0: one full-line comment of that many characters is written at the first line break after the header
 	// (lines longer than the 64 KiB default buffers of line readers)
 	Long     int
@@ -244,6 +247,9 @@ func (d *Doc) Render(l *Layout) string {
 				l.eolBare()
 			}
 			l.w(ln)
+			if l.ExprComments && l.pick(3) == 0 {
+				l.w(" # " + []string{"note", "it's", "say \"x\"", "}", "ü"}[l.pick(5)])
+			}
 		}
 		l.nl("")
 		l.w("}")
